@@ -107,7 +107,9 @@ def ddsmt_main():
 
         # parse the input
         start_time = time.time()
-        with open(options.args().infile, 'r') as infile:
+        # newline='': do not translate line endings, a CR (LF) inside a string
+        # literal or quoted symbol is part of that token
+        with open(options.args().infile, 'r', newline='') as infile:
             exprs = list(nodeio.parse_smtlib(infile.read()))
             nexprs = nodes.count_exprs(exprs)
 
